@@ -791,7 +791,9 @@ def k_dup_header(f, rng):
         dup = pick(rng, cands) if cands else h[-1]
         e.name = dup
         i = h.index(dup)
-        sheets[sheet] = (h + [dup], [r + [r[i]] for r in rows])  # same content twice: only the header is wrong
+        # same content twice: only the header is wrong; in a spreadsheet the second copy may differ by a stray blank, which is trimmed away when the header is read
+        dup2 = dup + pick(rng, ["", "", " ", "  "]) if fmt in ("xlsx", "xls") else dup
+        sheets[sheet] = (h + [dup2], [r + [r[i]] for r in rows])
         return sheets
     e.patch = patch
     e.column = sheet
